@@ -36,6 +36,11 @@ type crashImage struct {
 	// affected (torn variants of a GC write into a file that is being rewritten in place): keys whose record in the
 	// old file content overlaps the bytes that the partial write replaced
 	affected map[string]bool
+	// durable state of the image, scanned BEFORE the child opens it: the child writes a probe record and runs a GC
+	// pass on the recovered store, which rewrites the data files according to what the recovered tree believes
+	dur     map[string]durable
+	durTorn bool
+	durDone bool
 }
 
 // snapshotter copies the home directory at hook events.
@@ -299,6 +304,9 @@ func init() {
 	}
 }
 
+// longSilenceImage: images recovered with the hint dumper's silence time in force during start-up.
+func longSilenceImage(i int) bool { return i%3 != 0 }
+
 func recoverOne(job *recoverJob, i int) (res recResult) {
 	res.Image = i
 	defer func() {
@@ -309,7 +317,15 @@ func recoverOne(job *recoverJob, i int) (res recResult) {
 	home := job.Images[i]
 	applyCfg(&job.Cfg, home)
 	hooks.reset(false)
+	// two images out of three are opened the way a production node opens them: with a hint "silence" time that
+	// outlasts the start-up (5 s in production, an hour here; the wall clock is not owned, so only "much longer than
+	// opening takes" is deterministic), which leaves every dump that is not forced to the dumper. The wait is
+	// switched off again before the store is used (dump ops of the harness stay deterministic).
+	if longSilenceImage(i) {
+		SecsBeforeDump = 3600
+	}
 	s, err := openStore(&job.Cfg)
+	SecsBeforeDump = -1
 	if err != nil {
 		res.OpenErr = err.Error()
 		return
@@ -499,10 +515,10 @@ func durableState(cfg *Cfg, imageDir string) (map[string]durable, bool, error) {
 // pre: optional pre-GC model (C07): if set, every key must read exactly its pre-GC state.
 func checkRecovered(r *histRunner, img *crashImage, res *recResult, st *crashStats) error {
 	cfg := &r.h.Cfg
-	dur, torn, err := durableState(cfg, img.dir)
-	if err != nil {
-		return infraf("scan image: %v", err)
+	if !img.durDone {
+		return infraf("image %s: durable state was not scanned before recovery", filepath.Base(img.dir))
 	}
+	dur, torn := img.dur, img.durTorn
 	desc := fmt.Sprintf("image %s taken at %s during op %d", filepath.Base(img.dir), img.event, img.op)
 	if img.tornOf != "" {
 		desc += fmt.Sprintf(" (torn variant: %s cut at byte %d)", img.tornOf, img.cut)
@@ -751,6 +767,14 @@ func (cc *crashCheck) runCase(h *History) (r *histRunner, st *crashStats, err er
 	for i, img := range snap.images {
 		dirs[i] = img.dir
 	}
+	// the oracle's view of each image is taken before the child touches it
+	for _, img := range snap.images {
+		d, torn, e := durableState(&h.Cfg, img.dir)
+		if e != nil {
+			return r, st, infraf("scan image: %v", e)
+		}
+		img.dur, img.durTorn, img.durDone = d, torn, true
+	}
 	// the recovered store is also collected once (merge step on for histories with an even number of ops: a cheap,
 	// case-determined choice) and read again
 	results, e := recoverImages(&h.Cfg, dirs, snap.base, true, len(h.Ops)%2 == 0)
@@ -815,6 +839,7 @@ func (cc *crashCheck) check(t *testing.T) {
 		}
 		labels := r.sortedLabels()
 		stats.Add("images", int64(st.images))
+		stats.Add("images_opened_with_hint_silence_time", int64(st.images-(st.images+2)/3))
 		stats.Add("images_torn", int64(st.torn))
 		stats.Add("images_refused", int64(st.refused))
 		stats.Add("images_collected_after_recovery", int64(st.postGC))
